@@ -441,8 +441,43 @@ def _r2_allocation(ctx, md, ct):
         raise AnalysisError(f"HDF5Writer.open: allocation assignments not recognised ({sorted(seen)})")
 
     # resume cursors
+    n_cur = check_resume_cursors(ctx, md, ct, "R2")
+    if n_cur < 4:
+        raise AnalysisError(f"_open_resume: only {n_cur} cursor formulas recognised")
+
+
+def make_call_hook(md, func, cls_name):
+    """Call interpreter for the integer evaluator: nested helper functions (with closure), aliases of
+    methods, and static/instance methods of the class, all re-interpreted by exec_int_function."""
+    from ..exprs import bind_call_args
+    nested = {n.name: n for n in ast.walk(func) if isinstance(n, ast.FunctionDef) and n is not func}
+    aliases = {}
+    for st in ast.walk(func):
+        if isinstance(st, ast.Assign) and len(st.targets) == 1 and isinstance(st.targets[0], ast.Name) and isinstance(st.value, ast.Attribute):
+            aliases[st.targets[0].id] = st.value
+
+    def hook(node, env, ev):
+        f = node.func
+        args = [ev.ev(a) for a in node.args]
+        kws = {k.arg: ev.ev(k.value) for k in node.keywords if k.arg}
+        if isinstance(f, ast.Name) and f.id in aliases:
+            f = aliases[f.id]
+        if isinstance(f, ast.Name) and f.id in nested:
+            fd = nested[f.id]
+            return exec_int_function(fd, bind_call_args(fd, node, args, kws, skip_self=False), closure=env, call=hook)
+        if isinstance(f, ast.Attribute) and norm(f.value) in ("self", "cls", cls_name):
+            q = f"{cls_name}.{f.attr}"
+            if md.has_func(q):
+                fd = md.func(q)
+                return exec_int_function(fd, bind_call_args(fd, node, args, kws, skip_self=True), call=hook)
+        raise AnalysisError(f"int_eval: cannot interpret call {norm(node)[:80]}")
+    return hook
+
+
+def check_resume_cursors(ctx, md, ct, rid) -> int:
     orf = md.func("HDF5Writer._open_resume")
     so = orf.args.args[3].arg if len(orf.args.args) > 3 else "step_offset"
+    hook = make_call_hook(md, orf, "HDF5Writer")
     n_cur = 0
     for st in ast.walk(orf):
         if not (isinstance(st, ast.Assign) and len(st.targets) == 1 and isinstance(st.targets[0], ast.Subscript)):
@@ -457,34 +492,33 @@ def _r2_allocation(ctx, md, ct):
             if isinstance(g.target, ast.Tuple) and len(g.target.elts) == 2:
                 loopvar = g.target.elts[1].id
             value = value.value
-        if so not in {x.id for x in ast.walk(value) if isinstance(x, ast.Name)}:
-            continue  # constant arm (e.g. `= 0`)
+        if isinstance(value, ast.Constant) and value.value == 0:
+            continue  # constant arm (stream disabled)
         n_cur += 1
-        # cadence atom(s) used in the expression
-        cad_atoms = sorted({norm(x) for x in ast.walk(value) if (isinstance(x, ast.Attribute) and norm(x).startswith("self._")) or
+        cad_atoms = sorted({norm(x) for x in ast.walk(value) if (isinstance(x, ast.Attribute) and norm(x).startswith("self._") and not isinstance(md.parents.get(x), ast.Call) or
+                                                                    (isinstance(x, ast.Attribute) and norm(x).startswith("self._") and md.parents.get(x) is not None
+                                                                     and getattr(md.parents.get(x), "func", None) is not x)) or
                             (isinstance(x, ast.Name) and x.id == loopvar)})
         if len(cad_atoms) != 1:
-            ctx.fail("R2", md, st, "HDF5Writer._open_resume", st, f"resume cursor `{tgt}` mixes cadences {cad_atoms}")
+            ctx.fail(rid, md, st, "HDF5Writer._open_resume", st, f"resume cursor `{tgt}` mixes cadences {cad_atoms}")
             continue
         cad = cad_atoms[0]
-        # own-cadence check
         cad_node = ast.parse(cad).body[0].value
         labs = ct.labels(cad_node, orf, md.cls("HDF5Writer")) if loopvar is None else {"ITEM:self._cadence"}
         own = {"self.i_data": {"data"}, "self.i_tdm": {"transition_density_matrices"}, "self.i_na": {"nonadiabatic"},
                "self.i_vec": {"ITEM:self._cadence"}}[tgt.split("[")[0]]
-        ctx.check(labs == own, "R2", md, st, "HDF5Writer._open_resume", st, f"resume cursor {tgt} uses own cadence",
+        ctx.check(labs == own, rid, md, st, "HDF5Writer._open_resume", st, f"resume cursor {tgt} uses own cadence",
                   f"resume cursor {tgt} is computed from cadence key(s) {sorted(labs)}, expected {sorted(own)}")
         ctrl = controlling(md, st)
         bad = []
         cases = 0
         for off in range(0, 61):
             for c in range(0, 13):
-                env = {so: off, cad: c}
-                # restrict by evaluable controlling atoms
+                env = {so: off, cad: c, "__cad__": c}
                 skip = False
                 for a, pol, _ in ctrl:
                     try:
-                        if bool(int_eval(_rewrite_attr(a, cad), {**env, "__cad__": c})) != pol:
+                        if bool(int_eval(_rewrite_attr(a, cad), env, hook)) != pol:
                             skip = True
                     except (AnalysisError, ZeroDivisionError):
                         pass
@@ -492,18 +526,17 @@ def _r2_allocation(ctx, md, ct):
                     continue
                 cases += 1
                 try:
-                    got = int_eval(_rewrite_attr(value, cad), {**env, "__cad__": c})
+                    got = int_eval(_rewrite_attr(value, cad), env, hook)
                 except ZeroDivisionError:
                     got = "ZeroDivisionError"
                 want = sum(1 for s in range(0, off + 1) if s % c == 0) if c > 0 else 0
                 if got != want:
                     bad.append((off, c, got, want))
-        ctx.check(not bad, "R2", md, st, "HDF5Writer._open_resume", st,
+        ctx.check(not bad, rid, md, st, "HDF5Writer._open_resume", st,
                   f"resume cursor {tgt} == number of rows with label <= step_offset ({cases} cases)",
-                  f"resume cursor {tgt} = `{short(value, 60)}` differs from the number of rows already due; "
-                  f"first (step_offset,cadence,got,want): {bad[:4]}")
-    if n_cur < 4:
-        raise AnalysisError(f"_open_resume: only {n_cur} cursor formulas recognised")
+                  f"resume cursor {tgt} = `{short(value, 60)}` differs from the number of rows already written up to the checkpointed step "
+                  f"(stale rows kept / rows skipped); first (step_offset,cadence,got,want): {bad[:4]}")
+    return n_cur
 
 
 def _rewrite_attr(node, cad_text):
